@@ -377,6 +377,8 @@ func (e *Engine) unbox(st *State, iv Val, t types.Type) Val {
 	}
 	e.wrapPtr(&out)
 	e.assumeLoaded(st, out)
+	// references inside a boxed value are reached from the interface value: owned if it is (C18)
+	e.shareLoaded(st, iv.Terms[1], out)
 	return out
 }
 
